@@ -332,3 +332,46 @@ func H08_hist() {
 		h08Compare(&cb, sp, true)
 	}
 }
+
+// H08_clean_change: SetContent; SetDirty(false); then any operation — the
+// three-step histories in which a stale or aliased clean snapshot would hide a change.
+func H08_clean_change() {
+	classes := vsymParam("classes", 4)
+	var cb CellBuffer
+	sp := &h08Spec{}
+	cb.Resize(2, 1)
+	sp.Resize(2, 1)
+	x := vsymChoice("x", 2)
+	r := h08Rune("r0", classes)
+	var comb []rune
+	n := vsymChoice("comb0.n", 3)
+	for i := 0; i < n; i++ {
+		comb = append(comb, vsymRune("comb0"))
+	}
+	st := h08Style("st0")
+	cb.SetContent(x, 0, r, comb, st)
+	sp.SetContent(x, 0, r, comb, st)
+	cb.SetDirty(x, 0, false)
+	sp.SetDirty(x, 0, false)
+	h08Compare(&cb, sp, true)
+	// second write: same cell, symbolic content of a chosen combining length
+	r2 := r
+	if vsymChoice("samerune", 2) == 1 {
+		r2 = h08Rune("r1", classes)
+	}
+	var comb2 []rune
+	n2 := vsymChoice("comb1.n", 3)
+	for i := 0; i < n2; i++ {
+		comb2 = append(comb2, vsymRune("comb1"))
+	}
+	st2 := st
+	if vsymChoice("samestyle", 2) == 1 {
+		st2 = h08Style("st1")
+	}
+	cb.SetContent(x, 0, r2, comb2, st2)
+	sp.SetContent(x, 0, r2, comb2, st2)
+	if len(comb2) > 0 {
+		comb2[0] ^= 1
+	}
+	h08Compare(&cb, sp, true)
+}
